@@ -246,3 +246,20 @@ Proof.
   - intros w konsole wezterm mix sps Hw. exact (iterm2_lines_downward w konsole wezterm mix Hw sps).
   - intros w h konsole wezterm mix sp Hw Hh. exact (iterm2_whole_downward w h konsole wezterm mix Hw Hh sp).
 Qed.
+
+(** non-vacuity, old API: the same frames, pad size 3x3 centred, kitty <= 0.25 clearing and
+    the wezterm pre-erase, from the last row of a 10x5 screen *)
+Example old_animate_example :
+  let fmt := fun ls => format_render 3 3 1 1 2 2 (joinlf ls) in
+  DrawFinal 10 5 0 0 (pos 4 0) true (Z.max 3 2) (Z.max 3 2)
+            (fmt (lastframe ex_frame [ex_frame]))
+            (old_anim_stream true (Z.max 3 2) (wez_pre 3 3 1 1 2 2) (kitty_clear true)
+               (fmt ex_frame) (map fmt [ex_frame])).
+Proof.
+  apply (old_animate_final 10 5 0 3 3 1 1 2 2 true true true ex_frame [ex_frame] (pos 4 0) 0);
+    try (cbn; lia).
+  - apply wez_erase_lr; lia.
+  - apply wez_erase_downward; lia.
+  - constructor; [apply wez_erase_lr; lia|constructor].
+  - apply okat_pos.
+Qed.
